@@ -4,7 +4,7 @@ import json, os, shutil, subprocess, tempfile
 
 ENV = dict(os.environ, VERIF_NO_CONTROLS="1", GOFLAGS="-mod=mod", GOPROXY="off", GOSUMDB="off", GOTOOLCHAIN="local")
 ENV.pop("GOWORK", None)
-VERIF = "/verif"
+VERIF = os.environ.get("VERIF_DIR", "/verif")  # a worktree of /verif can be evaluated with VERIF_DIR=<path>
 
 
 def run(cmd, cwd, timeout=1800):
